@@ -12,6 +12,7 @@ Definition Jobj (o : obj) : J :=
   | OF c r => JL [JS "F"; JLZ (index_of r); JLZ c;
                   JL (map (fun x => JL (map (fun p => Jcell (row_get c (snd p) x)) r)) c)]
   | OA a => JL [JS "A"; JL (map Jcell a)]
+  | OA2 k r => JL [JS "A2"; JZ (Z.of_nat k); JL (map (fun row => JL (map Jcell row)) r)]
   | ON c => JL [JS "N"; Jcell c]
   | OX i => JL [JS "X"; JZ i]
   end.
@@ -29,6 +30,7 @@ Definition arr_clash (tg : target) (os : list obj) : bool :=
   match tg with
   | TgIdx i => existsb (fun o => match o with
                                  | OA a => negb (Nat.eqb (List.length a) (List.length i)) && Nat.ltb 1 (List.length a)
+                                 | OA2 _ a => negb (Nat.eqb (List.length a) (List.length i)) && Nat.ltb 1 (List.length a)
                                  | _ => false end) os
   | _ => false
   end.
